@@ -111,8 +111,20 @@ def writer(rng, P, s, ctx, stream, total, sizes, bufs=(1, 1, 2, 3)):
     return c
 
 
-def reader(rng, P, s, ctx, n, caps, bufs=(1, 1, 2, 4), nb_p=0.2, nb_caps=None):
+AT_TIMES = [0, 1000000, 5000000, 20000000, 50000000, 100000000, 200000000, 300000000, 600000000, 1000000000, 2000000000, 5000000000]
+
+
+def reader(rng, P, s, ctx, n, caps, bufs=(1, 1, 2, 4), nb_p=0.2, nb_caps=None, at_p=0.15):
     c = ctx
+    if n > 0 and rng.random() < at_p:
+        # non-blocking reads from timer handlers at arbitrary instants: with no wait outstanding, with the
+        # chain's read / wait_read still pending, while segments are arriving, before the connection is
+        # established or after it ended (not only inside the handler of a wait_read that just fired)
+        for _ in range(rng.choice([1, 2, 3, 4])):
+            tc = P.at(rng.choice(AT_TIMES))
+            if rng.random() < 0.2: P.do(tc, "%s.available" % s)
+            for _ in range(rng.choice([1, 1, 2])):
+                P.do(tc, "%s.read_nb cap=%d bufs=%d" % (s, rng.choice(nb_caps or caps), rng.choice(bufs)))
     for _ in range(n):
         h = P.h()
         if rng.random() < nb_p:
@@ -332,3 +344,77 @@ def generate_moved(seed, tier, n=None, pcap=False):
     rng = random.Random(seed * 49979687 + 13)
     n = n or (40 if tier == "quick" else 1500)
     return [moved_scenario(rng, "mv%d" % i, pcap) for i in range(n)]
+
+
+# ---------------------------------------------------------------------------------- capture (C19 stage 2)
+def drop_pcap_scenario(rng, sid, subset, reverse=False):
+    """writes of two or three segments each (so that two segments are in flight whenever the window allows)
+    through a scripted dropper on the writer's outgoing route, capture on"""
+    mss = rng.choice([100, 500, 1475])
+    if reverse: cfg = fixed_cfg(rng, drop_srv=set(subset), mtu=mss, slow=rng.random() < 0.5, nat=rng.random() < 0.3)
+    else: cfg = fixed_cfg(rng, drop_cli=set(x + 1 for x in subset), mtu=mss, slow=rng.random() < 0.5, nat=rng.random() < 0.3)
+    cfg.lines.append("pcap on")
+    P = Prog(rng)
+    c = connect(rng, P, cfg, 8000, "n0", "n1", sip="10.0.0.1")
+    w, wctx, r, rctx = (c["ss"], c["hacc"], c["cs"], c["hcon"]) if reverse else (c["cs"], c["hcon"], c["ss"], c["hacc"])
+    total = rng.choice([10, 12, 16]) * mss - rng.choice([0, 0, 1, mss // 2])
+    wend = writer(rng, P, w, wctx, 10, total, [2 * mss, 2 * mss, 3 * mss], bufs=(1, 1, 2))
+    reader(rng, P, r, rctx, 24, [65536, 4096], nb_p=0.1, at_p=0.0)
+    if rng.random() < 0.8: P.do(wend, "%s.close" % w)
+    return finish(sid, cfg, P)
+
+
+def generate_drop_pcap(seed, tier, n=None):
+    """capture on + a scripted dropper on the writer's outgoing route: retransmissions are (almost) certain --
+    one record per retransmitted segment, the sequence field advanced by the re-sent bytes. The sender has no
+    retransmission timer: a drop that leaves nothing in flight ends the transfer (two segments are in flight
+    at first, one after a drop until the next ACK), so one segment is dropped, or two at least four ordinals
+    apart (retransmissions count as ordinals too)"""
+    rng = random.Random(seed * 86028121 + 29)
+    n = n or (40 if tier == "quick" else 1000)
+    subsets = [(a,) for a in range(6)] + [(a, b) for a in range(4) for b in range(a + 4, 8)]
+    return [drop_pcap_scenario(rng, "dp%d" % i, rng.choice(subsets), reverse=(i % 2 == 1)) for i in range(n)]
+
+
+def reuse_pcap_scenario(rng, sid):
+    """two connections one after the other on the SAME socket objects (the client object closed, re-opened
+    and connected again; the acceptor accepting into the same server object) and, in 60 %, on the same
+    4-tuple (the client re-binds the same port): both sides write on both connections, so the capture's
+    sequence numbers must start at zero again in each direction (a byte counter kept in the socket object,
+    or per 4-tuple, would go on counting)"""
+    mss = rng.choice([500, 1475, 1475])
+    cfg = fixed_cfg(rng, drop_cli=rng.choice([None, None, {2}, {1, 3}]), drop_srv=rng.choice([None, None, {1}, {0, 2}]),
+                    mtu=mss, slow=rng.random() < 0.3, nat=rng.random() < 0.3)
+    cfg.lines.append("pcap on")
+    P = Prog(rng)
+    a = P.acc(); ss = P.sock(); cs = P.sock()
+    for op in ("%s.new n0" % a, "%s.open v4" % a, "%s.bind 10.0.0.1:8000" % a, "%s.listen" % a, "%s.new n0" % ss, "%s.new n1" % cs):
+        P.do("top", op)
+    cport = 5000 if rng.random() < 0.6 else 0
+    ctx = "top"; stream = 40
+    for k in range(2):
+        hacc = P.h(); hcon = P.h()
+        if k == 1:
+            P.do(ctx, "%s.close" % cs)
+            if rng.random() < 0.6: P.do(ctx, "%s.close" % ss)
+        P.do(ctx, "%s.%s %s h%d" % (a, rng.choice(["accept", "accept_ep"]), ss, hacc))
+        P.do(ctx, "%s.open v4" % cs); P.do(ctx, "%s.bind 10.0.1.1:%d" % (cs, cport))
+        P.do(ctx, "%s.connect 10.0.0.1:8000 h%d" % (cs, hcon))
+        for c, s in (("h%d" % hcon, cs), ("h%d" % hacc, ss)):
+            P.do(c, "%s.local" % s); P.do(c, "%s.remote" % s)
+        tc = rng.choice([5, 6, 8]) * mss + rng.choice([0, 1, 700])      # >= 5 segments: the dropper's ordinals fall on data
+        ts = rng.choice([1, 700, 3 * mss, 5 * mss + 1])
+        wend = writer(rng, P, cs, "h%d" % hcon, stream, tc, [mss, 2 * mss, 3 * mss + 1, tc], bufs=(1, 1, 2))
+        writer(rng, P, ss, "h%d" % hacc, stream + 1, ts, [mss, 2 * mss, ts], bufs=(1, 1, 2))
+        reader(rng, P, ss, "h%d" % hacc, tc // mss + 4, [65536, 4096], nb_p=0.1, at_p=0.0)
+        reader(rng, P, cs, "h%d" % hcon, ts // mss + 3, [65536, 4096], nb_p=0.1, at_p=0.0)
+        if k == 0 and rng.random() < 0.6: P.do(wend, "%s.close" % cs)        # the closing segment of the first connection
+        stream += 2
+        if k == 0: ctx = P.at(rng.choice([2000000000, 5000000000]))
+    return finish(sid, cfg, P)
+
+
+def generate_reuse_pcap(seed, tier, n=None):
+    rng = random.Random(seed * 67867967 + 31)
+    n = n or (40 if tier == "quick" else 1000)
+    return [reuse_pcap_scenario(rng, "rp%d" % i) for i in range(n)]
